@@ -1005,6 +1005,33 @@ func callBuiltin(caller *frame, callpos token.Pos, fn *ssa.Builtin, args []value
 		}
 		return nil
 
+	case "clear":
+		switch m := args[0].(type) {
+		case map[value]value:
+			for k := range m {
+				delete(m, k)
+			}
+		case *smap:
+			if m != nil {
+				*m = smap{idx: map[string]int{}}
+			}
+		case *hashmap:
+			if m != nil {
+				m.table = map[int]*entry{}
+				m.length = 0
+			}
+		case []value:
+			if len(m) > 0 {
+				z := zero(fn.Type().(*types.Signature).Params().At(0).Type().Underlying().(*types.Slice).Elem())
+				for k := range m {
+					m[k] = deepCopy(z, map[*value]*value{})
+				}
+			}
+		default:
+			panic(fmt.Sprintf("clear: illegal operand: %T", m))
+		}
+		return nil
+
 	case "print", "println": // print(any, ...)
 		ln := fn.Name() == "println"
 		var buf bytes.Buffer
@@ -1067,9 +1094,9 @@ func callBuiltin(caller *frame, callpos token.Pos, fn *ssa.Builtin, args []value
 		}
 
 	case "min":
-		return foldLeft(min, args)
+		return foldLeft(func(x, y value) value { return minmax(caller.i, token.LSS, x, y) }, args)
 	case "max":
-		return foldLeft(max, args)
+		return foldLeft(func(x, y value) value { return minmax(caller.i, token.GTR, x, y) }, args)
 
 	case "real":
 		switch c := args[0].(type) {
@@ -1469,6 +1496,26 @@ func foldLeft(op func(value, value) value, args []value) value {
 	x := args[0]
 	for _, arg := range args[1:] {
 		x = op(x, arg)
+	}
+	return x
+}
+
+// minmax: gosx — the comparison may be symbolic (decided by the solver).
+func minmax(i *interpreter, op token.Token, x, y value) value {
+	switch x := x.(type) {
+	case float32:
+		if op == token.LSS {
+			return fmin(x, y.(float32))
+		}
+		return fmax(x, y.(float32))
+	case float64:
+		if op == token.LSS {
+			return fmin(x, y.(float64))
+		}
+		return fmax(x, y.(float64))
+	}
+	if i.decide(binop(i, op, nil, y, x)) {
+		return y
 	}
 	return x
 }
